@@ -1241,10 +1241,12 @@ class SyncFlag:
         if self._tx_ctx is None:
             as_pyeval(setattr, self, "_tx_ctx", tx_ctx)
 
-            if self._rx_delay != 0:
+            if self._rx_delay != 0 or self._tx_delay != 0:
                 assert (
                     self._rx_ctx is not tx_ctx
                 ), "std.SyncFlag with delay cannot be set and cleared in the same context"
+
+            if self._rx_delay != 0:
                 at_end_of_context(self._impl_rx_delayline)
 
             # return True first time context is detected so
@@ -1264,10 +1266,12 @@ class SyncFlag:
         if self._rx_ctx is None:
             as_pyeval(setattr, self, "_rx_ctx", rx_ctx)
 
-            if self._tx_delay != 0:
+            if self._rx_delay != 0 or self._tx_delay != 0:
                 assert (
                     self._tx_ctx is not rx_ctx
                 ), "std.SyncFlag with delay cannot be set and cleared in the same context"
+
+            if self._tx_delay != 0:
                 at_end_of_context(self._impl_tx_delayline)
 
             # return True first time context is detected so
